@@ -16,3 +16,6 @@ def run(ck):
     region.r_equality_sides(ck, P, 'C06-R6')
     region.r7_5_independent_clamps(ck, P)        # C07-R5: a clamp that depends on the other axis leaves a malformed (x1 > x2 / y1 > y2) box
     region.r7_8_range_test_siblings(ck, P)       # C07-R8
+    region.r6_7_normalise_after_last_change(ck, P)
+    region.r6_8_extents_before_data_is_dropped(ck, P)
+    region.r1_aliasing(ck, P)                    # C05-R1: an operand overwritten while it is read leaves a malformed region
